@@ -503,6 +503,8 @@ struct Out {
     req: BufWriter<File>,
     rust: BufWriter<File>,
     oracle: BufWriter<File>,
+    /// the event that is being processed (written as a `PANIC` line if the implementation panics on it)
+    pending: Option<String>,
     lines: usize,
     oracle_fails: usize,
     stats: BTreeMap<String, u64>,
@@ -511,6 +513,7 @@ struct Out {
 
 impl Out {
     fn emit(&mut self, req: &str, rust: &str) {
+        self.pending = None;
         writeln!(self.req, "{}", req).unwrap();
         writeln!(self.rust, "{}", rust).unwrap();
         self.lines += 1;
@@ -1125,6 +1128,7 @@ impl<'a> Scenario<'a> {
         }
         let gate = gate_of(&msg);
         let wrong_direction = text.starts_with("other ");
+        self.out.pending = Some(format!("bev msg {} {}", c, text));
         self.sim.client_send(c, msg);
         self.sim.settle(false);
         let obs = self.observe();
@@ -1332,7 +1336,7 @@ fn main() {
     let profile = args.get(4).cloned().unwrap_or_else(|| "mixed".to_string());
     std::fs::create_dir_all(outdir).unwrap();
     let mk = |n: &str| BufWriter::new(File::create(format!("{}/{}", outdir, n)).unwrap());
-    let mut out = Out { req: mk("req.txt"), rust: mk("rust.txt"), oracle: mk("oracle.txt"), lines: 0, oracle_fails: 0, stats: BTreeMap::new(), samples: vec![] };
+    let mut out = Out { req: mk("req.txt"), rust: mk("rust.txt"), oracle: mk("oracle.txt"), pending: None, lines: 0, oracle_fails: 0, stats: BTreeMap::new(), samples: vec![] };
     let mut rng = Rng::new(seed);
     for i in 0..cases {
         let s = rng.next();
@@ -1341,6 +1345,9 @@ fn main() {
         let r = catch_unwind(AssertUnwindSafe(|| run_scenario(&mut out, s, steps, prof)));
         if r.is_err() {
             out.fail("C11", "panic while driving the broker", &format!("scenario seed {} profile {}", s, prof));
+            if let Some(p) = out.pending.take() {
+                out.emit(&p, "PANIC");
+            }
         }
     }
     out.req.flush().unwrap();
